@@ -38,7 +38,7 @@ func (P) Engine() string { return "E1" }
 func (P) Describe() harness.Description {
 	return harness.Description{
 		MustHit: []string{"bucket_recycled", "read_exactly_on_bucket_boundary", "idle_gap_longer_than_array", "previous_qps_checked", "per_second_items_nonempty"},
-		Level: "exploration",
+		Level:   "exploration",
 		Rule: "case = (array geometry, 1-5 candidate views valid and invalid, virtual origin incl. near zero, 20-200 ops add/rt/conc/tick/read with ticks biased to bucket, cycle and second boundaries and idle gaps > array); " +
 			"every read compares every getter of BucketLeapArray, SlidingWindowMetric views and a BaseStatNode with the event-log aggregate; non-trivial = at least one read saw a non-empty window after a bucket was recycled or read exactly on a bucket boundary; distinct = hash(config, ops)",
 		Assumptions: []string{
